@@ -7,7 +7,11 @@ import onnx
 
 from spox._exceptions import BuildError
 from spox._fields import BaseAttributes, BaseInputs, BaseOutputs
-from spox._internal_op import INTERNAL_MIN_OPSET, _InternalNode
+from spox._internal_op import (
+    IDENTITY_OPTIONAL_MIN_OPSET,
+    INTERNAL_MIN_OPSET,
+    _InternalNode,
+)
 from spox._node import OpType
 from spox._scope import Scope
 from spox._type_system import Type
@@ -104,9 +108,17 @@ class _Inline(_InternalNode):
 
     @property
     def opset_req(self) -> Set[Tuple[str, int]]:
-        return {(imp.domain, imp.version) for imp in self.model.opset_import} | {
+        req = {(imp.domain, imp.version) for imp in self.model.opset_import} | {
             ("", INTERNAL_MIN_OPSET)
         }
+        # An output which is directly an input is forwarded with an Identity node
+        input_names = {p.name for p in self.graph.input}
+        if any(
+            p.name in input_names and p.type.HasField("optional_type")
+            for p in self.graph.output
+        ):
+            req.add(("", IDENTITY_OPTIONAL_MIN_OPSET))
+        return req
 
     def infer_output_types(self) -> Dict[str, Type]:
         # First, type check that we match the ModelProto type requirements
